@@ -214,7 +214,7 @@ func (s *Solver) Check() Result {
 			break
 		}
 		if s.log != nil {
-			io.WriteString(s.log, "; -> "+line+"\n")
+			io.WriteString(s.log, fmt.Sprintf("; -> %s  ; %dms\n", line, time.Since(t0).Milliseconds()))
 		}
 		if line == "sat" {
 			r = Sat
